@@ -526,6 +526,54 @@ def run(ctx):
                                                                               dict(time_dtypes=[ka, kb], how=how)))
                 if not np.array_equal(r_.xyz, np.concatenate([a_.xyz, b_.xyz] + ([a_.xyz] if "[b, a]" in how else []))):
                     seen.setdefault("join|xyz", ("%s: coordinates are not the concatenation" % how, dict(how=how)))
+    # ---- join(discard_overlapping_frames=True) and md.join: pieces that repeat the last frame of the piece before (to within the 2e-3 nm of
+    # the code's test), that nearly do (3e-3 nm off) or do not, against the model (JoinDiscard: one frame fewer per overlapping junction,
+    # whole frames — coordinates, times and cells together — in the order of the pieces)
+    jreq, jmeta = [], []
+    for k in range(ctx.n(30, 300)):
+        rs = np.random.RandomState(ctx.seed * 7919 + k)
+        n_at = 5
+        n_pieces = rng.choice([2, 2, 3, 4])
+        pieces, ids, next_id = [], [], 1
+        prev_last = None
+        for pi in range(n_pieces):
+            L_ = rng.choice([1, 1, 2, 3, 5])
+            X_ = rs.rand(L_, n_at, 3).astype(np.float32) * 3 + 1
+            id_ = list(range(next_id, next_id + L_)); next_id += L_
+            kind_ = rng.choice(["repeat", "repeat", "jitter", "near", "fresh"]) if prev_last is not None else "fresh"
+            if kind_ == "repeat":
+                X_[0] = prev_last[0]; id_[0] = prev_last[1]
+            elif kind_ == "jitter":     # within the tolerance of the test: the same frame as far as the code is concerned
+                X_[0] = prev_last[0] + rs.uniform(-1.5e-3, 1.5e-3, (n_at, 3)).astype(np.float32); id_[0] = prev_last[1]
+            elif kind_ == "near":       # one atom 3e-3 nm off: another frame
+                X_[0] = prev_last[0]; X_[0, rs.randint(n_at), rs.randint(3)] += np.float32(3e-3)
+            tr_ = md.Trajectory(X_, None, time=np.array(id_, dtype=np.float32), unitcell_lengths=np.array([[10.0 + i_, 10, 10] for i_ in id_], dtype=np.float32),
+                                unitcell_angles=np.full((L_, 3), 90.0, dtype=np.float32))
+            pieces.append(tr_); ids.append(id_)
+            prev_last = (X_[-1].copy(), id_[-1])
+        how = ["method", "md.join"][k % 2]
+        try:
+            J = pieces[0].join(pieces[1:], discard_overlapping_frames=True) if how == "method" else md.join(pieces, discard_overlapping_frames=True)
+        except Exception as e:
+            seen.setdefault("join-discard|raises", ("join(discard_overlapping_frames=True) of pieces with frames %s raised %s: %s" % (ids, type(e).__name__, str(e)[:80]), dict(ids=ids)))
+            continue
+        got_ids = [int(round(float(v))) for v in J.time]
+        cell_ids = [int(round(float(v) - 10.0)) for v in J.unitcell_lengths[:, 0]]
+        # which input frame each output frame is, by its coordinates
+        flat = [(id_, pieces[pi].xyz[fi]) for pi, idl in enumerate(ids) for fi, id_ in enumerate(idl)]
+        xyz_ids = []
+        for fr in J.xyz:
+            m_ = [id_ for id_, x_ in flat if np.array_equal(x_, fr)]
+            xyz_ids.append(m_[0] if m_ else -1)
+        ctx.case(None, ("join-discard", k)); ctx.count("joins with discard_overlapping_frames")
+        jreq.append("joindiscard " + ";".join(",".join(map(str, l)) for l in ids)); jmeta.append((ids, got_ids, cell_ids, xyz_ids, how))
+    if ctx.driver_ok and jreq:
+        for (ids, got_ids, cell_ids, xyz_ids, how), line in zip(jmeta, ctx.driver.query(jreq)):
+            want = [int(x) for x in line.split(",")] if line else []
+            ok_xyz = len(xyz_ids) == len(want) and all(a == b or a == -1 for a, b in zip(xyz_ids, want))   # (a jittered repeat has its own coordinates)
+            if got_ids != want or cell_ids != want or not ok_xyz:
+                seen.setdefault("join-discard|frames", ("join(discard_overlapping_frames=True) [%s] of pieces with frames %s gives times %s, cells %s, coordinates %s; one frame is dropped per overlapping junction: %s" % (
+                    how, ids, got_ids, cell_ids, xyz_ids, want), dict(ids=ids, how=how)))
     for key, (what, rp) in seen.items():
         ctx.violation(key, what, rp)
 
